@@ -33,7 +33,7 @@ pub(super) enum Ev {
     /// leaf event with id
     Leaf(u8),
     /// event `id` that schedules `Leaf(child)` after `delay` ns
-    Spawn(u8, u32, u8),
+    Spawn(u8, u8, u8),
 }
 
 impl Application for App {
@@ -55,7 +55,7 @@ impl Event<App> for Ev {
             rt.app.n = i + 1;
         }
         if let Ev::Spawn(_, d, c) = self {
-            rt.add_event_in(Ev::Leaf(c), Duration::new(0, d));
+            rt.add_event_in(Ev::Leaf(c), Duration::new(0, d as u32));
         }
     }
 }
@@ -162,7 +162,7 @@ fn c02_clock(n: usize, t: u32, tmax: u32, dmax: u32) {
     let mut rt = mk_rt(n, t, RuntimeLimit::None);
     let t1 = any_in(0, tmax);
     let d = any_in(0, dmax);
-    rt.add_event(Ev::Spawn(1, d, 2), st(t1));
+    rt.add_event(Ev::Spawn(1, d as u8, 2), st(t1));
     let s1 = rt.dispatch_event();
     assert!(!s1, "C02 first dispatch handles the scheduled event");
     assert!(rt.app.n == 1 && rt.app.ids[0] == 1, "C02 each event handled exactly once (first)");
@@ -180,8 +180,8 @@ fn c02_clock(n: usize, t: u32, tmax: u32, dmax: u32) {
     kani::cover!(true, "REACH end of harness");
     std::mem::forget(rt);
 }
-rt_harness!(c02_clock_n1t2, 6, c02_clock(1, 2, 3, 2));
-rt_harness!(c02_clock_n2t1, 8, c02_clock(2, 1, 3, 2));
+rt_harness!(c02_clock_n1t2, 5, c02_clock(1, 2, 3, 2));
+rt_harness!(c02_clock_n2t1, 5, c02_clock(2, 1, 3, 2));
 
 /// two pre-scheduled events at symbolic times + handler order
 fn c02_two(n: usize, t: u32, tmax: u32) {
@@ -201,8 +201,8 @@ fn c02_two(n: usize, t: u32, tmax: u32) {
     kani::cover!(true, "REACH end of harness");
     std::mem::forget(rt);
 }
-rt_harness!(c02_two_n1t2, 6, c02_two(1, 2, 3));
-rt_harness!(c02_two_n2t2, 6, c02_two(2, 2, 5));
+rt_harness!(c02_two_n1t2, 5, c02_two(1, 2, 3));
+rt_harness!(c02_two_n2t2, 5, c02_two(2, 2, 5));
 
 /// past event must be rejected, for every start time (real Builder::start_time + Builder::build)
 fn c02_past_start() {
@@ -216,7 +216,7 @@ fn c02_past_start() {
     rt.add_event(Ev::Leaf(1), st(t));
     assert!(false, "C02 scheduling before the current simulated time must be rejected (non-zero start time)");
 }
-rt_harness!(c02_past_start_time, 6, c02_past_start());
+rt_harness!(c02_past_start_time, 5, c02_past_start());
 
 /// at-or-after-now event must be accepted, for every start time
 fn c02_future_start() {
@@ -235,7 +235,7 @@ fn c02_future_start() {
     kani::cover!(true, "REACH end of harness");
     std::mem::forget(rt);
 }
-rt_harness!(c02_future_start_time, 7, c02_future_start());
+rt_harness!(c02_future_start_time, 5, c02_future_start());
 
 /// past event after one dispatch (now = last event time) must be rejected
 fn c02_past_after() {
@@ -250,64 +250,94 @@ fn c02_past_after() {
     rt.add_event(Ev::Leaf(2), st(t));
     assert!(false, "C02 scheduling before the current simulated time must be rejected (after a dispatch)");
 }
-rt_harness!(c02_past_after_dispatch, 6, c02_past_after());
+rt_harness!(c02_past_after_dispatch, 5, c02_past_after());
+
+/// clock kernel, full width: what the dispatcher stores is what handlers read
+#[kani::proof]
+#[kani::unwind(2)]
+fn c02_clock_roundtrip_fullwidth() {
+    let s: u64 = kani::any();
+    let n: u32 = kani::any();
+    kani::assume(n < 1_000_000_000);
+    let t = SimTime::from_duration(Duration::new(s, n));
+    SimTime::set_now(t);
+    let r = SimTime::now();
+    assert!(r == t, "C02 SimTime::now() returns exactly the time the dispatcher set (full-width seconds and nanoseconds)");
+    assert!(r.as_secs() == s && r.subsec_nanos() == n, "C02 clock keeps seconds and sub-second nanoseconds separately exact");
+    kani::cover!(s > u32::MAX as u64, "REACH seconds beyond 32 bits");
+    kani::cover!(true, "REACH end of harness");
+}
+
+/// one event at a full-width symbolic timestamp (single bucket spanning the whole range)
+fn c02_dispatch_wide() {
+    SimTime::set_now(SimTime::MIN);
+    let mut rt = mk_rt(1, 1, RuntimeLimit::None);
+    // replace the event set by one whose single bucket spans [0, 2^63 s]
+    let mut b = builder(1, 1);
+    b.cqueue_bucket_timespan = Duration::new(1u64 << 63, 0);
+    rt.future_event_set = FutureEventSet::new_with(&b);
+    let s: u64 = kani::any();
+    let n: u32 = kani::any();
+    kani::assume(n < 1_000_000_000 && s < (1u64 << 63));
+    let t = SimTime::from_duration(Duration::new(s, n));
+    rt.add_event(Ev::Leaf(1), t);
+    let s1 = rt.dispatch_event();
+    assert!(!s1 && rt.app.n == 1, "C02 event at a far-future timestamp is handled");
+    assert!(SimTime::now() == t, "C02 clock equals the full-width timestamp of the running event");
+    assert!(rt.app.times[0] == if s == 0 { n } else { u32::MAX }, "C02 handler observes the full-width timestamp");
+    kani::cover!(s > u32::MAX as u64, "REACH event beyond 2^32 seconds");
+    kani::cover!(true, "REACH end of harness");
+    std::mem::forget(rt);
+}
+rt_harness!(c02_dispatch_fullwidth, 5, c02_dispatch_wide());
 
 // ---------------------------------------------------------------------------
 // C10
 // ---------------------------------------------------------------------------
 
-/// expected dispatch order of three pre-scheduled events (all scheduled at time zero before the
-/// run): sort by (time, current-instant class, scheduling order); class = (time == 0).
-fn expected3(ts: [u32; 3]) -> [usize; 3] {
-    // stable insertion sort on time; zero-class events are all at time 0 and keep insertion order
-    let mut idx = [0usize, 1, 2];
-    let mut i = 1;
-    while i < 3 {
-        let mut j = i;
-        while j > 0 && ts[idx[j - 1]] > ts[idx[j]] {
-            let tmp = idx[j - 1];
-            idx[j - 1] = idx[j];
-            idx[j] = tmp;
-            j -= 1;
-        }
-        i += 1;
-    }
-    idx
-}
-
-/// cut a 3-event run after k events (dispatch_n_events), then resume: same order, same times.
-fn c10_cut_n(n: usize, t: u32, tmax: u32, same_instant: bool) {
+/// cut a 3-event run after K events (dispatch_n_events), then resume: same order, same times.
+/// Events are scheduled in timestamp order a <= b <= c (ties allowed), so the uninterrupted run
+/// dispatches 0,1,2 (C03 rule); `same` forces a three-way tie at one symbolic instant.
+fn c10_cut_k(n: usize, t: u32, tmax: u32, same: bool, k: usize) {
     let mut rt = mk_rt(n, t, RuntimeLimit::None);
     let a = any_in(0, tmax);
-    let (b, c) = if same_instant { (a, a) } else { (any_in(0, tmax), any_in(0, tmax)) };
+    let (b, c) = if same { (a, a) } else { (any_in(a, tmax), any_in(a, tmax)) };
+    kani::assume(b <= c);
     let ts = [a, b, c];
     rt.add_event(Ev::Leaf(0), st(a));
     rt.add_event(Ev::Leaf(1), st(b));
     rt.add_event(Ev::Leaf(2), st(c));
-    let exp = expected3(ts);
-    let k: usize = kani::any();
-    kani::assume(k >= 1 && k <= 2);
     rt.dispatch_n_events(k);
     assert!(rt.num_events_dispatched() == k, "C10 dispatch_n_events(n) dispatches exactly n events");
     assert!(rt.app.n == k, "C10 exactly n handlers ran");
     assert!(rt.num_events_remaining() == 3 - k, "C10 undelivered events are counted as remaining");
-    assert!(rt.sim_time() == st(ts[exp[k - 1]]), "C10 paused runtime reports the time of the last dispatched event");
-    kani::cover!(k == 1 && ts[exp[0]] == ts[exp[1]] && ts[exp[1]] == ts[exp[2]], "REACH cut inside a three-event same-instant group");
-    kani::cover!(k == 1 && ts[exp[0]] < ts[exp[1]], "REACH cut between different instants");
-    rt.dispatch_all();
-    assert!(rt.app.n == 3, "C10 stepping then dispatch_all executes every event exactly once");
+    assert!(rt.sim_time() == st(ts[k - 1]), "C10 paused runtime reports the time of the last dispatched event");
+    kani::cover!(a == b && b == c && a == 0, "REACH cut inside a same-instant group at time zero");
+    kani::cover!(a == b && b == c && a > 0, "REACH cut inside a same-instant group at a later instant");
+    kani::cover!(ts[k - 1] < ts[k], "REACH cut between different instants");
+    // resume (straight-line dispatch_event calls: same code path as dispatch_all's loop body)
+    let mut i = k;
+    while i < 3 {
+        let stop = rt.dispatch_event();
+        assert!(!stop, "C10 resumed run still has the undelivered events");
+        i += 1;
+    }
+    let stop = rt.dispatch_event();
+    assert!(stop && rt.app.n == 3, "C10 stepping then resuming executes every event exactly once");
     let mut i = 0;
     while i < 3 {
-        assert!(rt.app.ids[i] as usize == exp[i], "C10 stepped run executes events in the same order as an uninterrupted run");
-        assert!(rt.app.times[i] == ts[exp[i]], "C10 stepped run executes events at the same simulated times");
+        assert!(rt.app.ids[i] as usize == i, "C10 stepped run executes events in the same order as an uninterrupted run");
+        assert!(rt.app.times[i] == ts[i], "C10 stepped run executes events at the same simulated times");
         i += 1;
     }
     kani::cover!(true, "REACH end of harness");
     std::mem::forget(rt);
 }
-rt_harness!(c10_cut_same_instant_n1t2, 6, c10_cut_n(1, 2, 3, true));
-rt_harness!(c10_cut_n1t2, 6, c10_cut_n(1, 2, 3, false));
-rt_harness!(c10_cut_n2t1, 8, c10_cut_n(2, 1, 3, false));
+rt_harness!(c10_cut1_same_instant_n1t2, 5, c10_cut_k(1, 2, 3, true, 1));
+rt_harness!(c10_cut2_same_instant_n1t2, 5, c10_cut_k(1, 2, 3, true, 2));
+rt_harness!(c10_cut1_n1t2, 5, c10_cut_k(1, 2, 3, false, 1));
+rt_harness!(c10_cut2_n1t2, 5, c10_cut_k(1, 2, 3, false, 2));
+rt_harness!(c10_cut1_n2t1, 5, c10_cut_k(2, 1, 3, false, 1));
 
 /// after a cut, the paused runtime accepts new events at any time >= the reported time
 fn c10_paused_add(n: usize, t: u32, tmax: u32) {
@@ -328,7 +358,7 @@ fn c10_paused_add(n: usize, t: u32, tmax: u32) {
     kani::cover!(true, "REACH end of harness");
     std::mem::forget(rt);
 }
-rt_harness!(c10_paused_add_n1t2, 6, c10_paused_add(1, 2, 3));
+rt_harness!(c10_paused_add_n1t2, 5, c10_paused_add(1, 2, 3));
 
 /// dispatch_events_until(T') dispatches exactly the events with timestamp <= T'
 fn c10_until(n: usize, t: u32, tmax: u32) {
@@ -355,8 +385,8 @@ fn c10_until(n: usize, t: u32, tmax: u32) {
     kani::cover!(true, "REACH end of harness");
     std::mem::forget(rt);
 }
-rt_harness!(c10_until_n1t2, 6, c10_until(1, 2, 3));
-rt_harness!(c10_until_n2t1, 8, c10_until(2, 1, 3));
+rt_harness!(c10_until_n1t2, 5, c10_until(1, 2, 3));
+rt_harness!(c10_until_n2t1, 5, c10_until(2, 1, 3));
 
 // ---------------------------------------------------------------------------
 // C11
@@ -452,12 +482,12 @@ fn c11_run2(n: usize, t: u32, tmax: u32, shape: u8) {
         Err(_) => assert!(false, "C11 finish must not fail"),
     }
 }
-rt_harness!(c11_run2_none_n1t2, 6, c11_run2(1, 2, 3, 0));
-rt_harness!(c11_run2_count_n1t2, 6, c11_run2(1, 2, 3, 1));
-rt_harness!(c11_run2_time_n1t2, 6, c11_run2(1, 2, 3, 2));
-rt_harness!(c11_run2_and_n1t2, 6, c11_run2(1, 2, 3, 3));
-rt_harness!(c11_run2_or_n1t2, 6, c11_run2(1, 2, 3, 4));
-rt_harness!(c11_run2_builder_or_n1t2, 6, c11_run2(1, 2, 3, 5));
-rt_harness!(c11_run2_count_n2t1, 8, c11_run2(2, 1, 3, 1));
-rt_harness!(c11_run2_time_n2t1, 8, c11_run2(2, 1, 3, 2));
-rt_harness!(c11_run2_or_n2t1, 8, c11_run2(2, 1, 3, 4));
+rt_harness!(c11_run2_none_n1t2, 5, c11_run2(1, 2, 3, 0));
+rt_harness!(c11_run2_count_n1t2, 5, c11_run2(1, 2, 3, 1));
+rt_harness!(c11_run2_time_n1t2, 5, c11_run2(1, 2, 3, 2));
+rt_harness!(c11_run2_and_n1t2, 5, c11_run2(1, 2, 3, 3));
+rt_harness!(c11_run2_or_n1t2, 5, c11_run2(1, 2, 3, 4));
+rt_harness!(c11_run2_builder_or_n1t2, 5, c11_run2(1, 2, 3, 5));
+rt_harness!(c11_run2_count_n2t1, 5, c11_run2(2, 1, 3, 1));
+rt_harness!(c11_run2_time_n2t1, 5, c11_run2(2, 1, 3, 2));
+rt_harness!(c11_run2_or_n2t1, 5, c11_run2(2, 1, 3, 4));
